@@ -451,16 +451,14 @@ Print Assumptions C18_nt_rs_matches_model.
 
 (* the three callees that Generated/NtGen.v reaches through LOCAL models of Model/NumTraits.v (to_u128; From<u32> / From<u128>
    by `.into()`) agree with the models their source is tied to elsewhere (C19: Proofs/ConvGenTieC19.v; C13: Proofs/LoopsTieC13.v),
-   for the digit widths of Rust and - for `into` - whenever the value fits the type *)
+   to_u128 for the digit widths of Rust; the two models of From<$uint> for every value, width, digit count and build mode *)
 From Bnum.Model Require Convert NumConv.
 From Bnum.Proofs Require Import NtGenTieDeps.
 
 Theorem C18_nt_local_models_agree :
   (forall dbg w n a, 0 < w -> (0 < n)%nat -> wf w n a -> 128 < w \/ (w | 128) ->
      NumTraits.U_to_u128 w a = NumConv.U_to_int dbg 128 false w a) /\
-  (forall dbg w n v, 0 < w -> 0 <= v < 2 ^ 32 -> v < Mod w n ->
-     NumTraits.U_from_u32 w n v = Convert.U_from_uint dbg 32 w n v) /\
-  (forall dbg w n v, 0 < w -> 0 <= v < 2 ^ 128 -> v < Mod w n ->
-     NumTraits.U_from_u128 w n v = Convert.U_from_uint dbg 128 w n v).
+  (forall dbg w n v, 0 < w -> NumTraits.U_from_u32 w n v = Convert.U_from_uint dbg 32 w n v) /\
+  (forall dbg w n v, 0 < w -> NumTraits.U_from_u128 w n v = Convert.U_from_uint dbg 128 w n v).
 Proof. exact nt_local_models_agree. Qed.
 Print Assumptions C18_nt_local_models_agree.
